@@ -47,7 +47,7 @@
  "name": "tune_resize_inode_valid_fs",
  "props": ["C11"],
  "level": "P",
- "tier": "wip",
+ "tier": "quick",
  "harness": "h_resize_inode",
  "defines": ["CHECK_I5=1"],
  "replace": ["get_move_bitmaps", "move_block", "inode_scan_and_fix", "group_desc_scan_and_fix", "expand_inode_table"],
